@@ -441,5 +441,120 @@ theorem argmaxSse2_panic_iff (o : Cmp α) (C maxIndex rows : Nat) (f : Nat → N
   · simp [h1]
   · by_cases h2 : rows = 0 <;> simp [h1, h2]
 
+/-! ### `max_f32_avx2` and `max_u8_avx2` -/
+
+/-- a max-like lane down one column, seeded with `a`: the result is `a` or a cell of the column,
+    and dominates `a` and every cell of the column -/
+theorem lane_max (o : Cmp α) (ht : o.Total) (op : α → α → α) (hop : MaxLike o op)
+    (g : Nat → α) (rows : Nat) (a : α) :
+    (laneFold (fun _ m r => op m r) g (List.range rows) a = a ∨
+      ∃ i, i < rows ∧ laneFold (fun _ m r => op m r) g (List.range rows) a = g i) ∧
+    o.le a (laneFold (fun _ m r => op m r) g (List.range rows) a) = true ∧
+    ∀ i, i < rows → o.le (g i) (laneFold (fun _ m r => op m r) g (List.range rows) a) = true := by
+  have h := foldl_maxLike o ht op hop ((List.range rows).map g) a
+  have he : laneFold (fun _ m r => op m r) g (List.range rows) a = ((List.range rows).map g).foldl op a := by
+    simp [laneFold, List.foldl_map]
+  rw [he]
+  obtain ⟨h1, h2, h3⟩ := h
+  refine ⟨?_, h2, ?_⟩
+  · rcases h1 with h1 | h1
+    · exact Or.inl h1
+    · right
+      obtain ⟨i, hi, hgi⟩ := List.mem_map.1 h1
+      exact ⟨i, List.mem_range.1 hi, hgi.symm⟩
+  · intro i hi
+    exact h3 _ (List.mem_map.2 ⟨i, List.mem_range.2 hi, rfl⟩)
+
+theorem mf32_tables :
+    mf32LoadOffs.length = 4 ∧
+    (∀ s, s < 32 → mf32LoadOffs.getD (s / 8) 0 + s % 8 = s) ∧
+    (∀ s, s < 32 → mf32Init.getD (s / 8) .zero = .row0 (s - s % 8)) ∧
+    mf32AccFirst = true ∧ mf32Tree = ((0, 1), (2, 3)) := by decide
+
+theorem maxF32Avx2_eq_none_iff (o : Cmp α) (rows : Nat) (f : Nat → Nat → α) :
+    maxF32Avx2 o rows f = none ↔ rows = 0 := by
+  unfold maxF32Avx2
+  by_cases h : rows = 0
+  · simp [h]
+  · simp [h, reduce1_eq_none]
+
+/-- `max_f32_avx2` (accumulators seeded with the first row) returns a value that is attained and
+    dominates every cell -/
+theorem maxF32Avx2_spec (o : Cmp α) (ht : o.Total) (rows : Nat) (f : Nat → Nat → α) (v : α)
+    (h : maxF32Avx2 o rows f = some v) : IsMax o rows 32 f v := by
+  obtain ⟨t1, t2, t3, t4, t5⟩ := mf32_tables
+  unfold maxF32Avx2 at h
+  split at h
+  · cases h
+  next hrows =>
+  have hrows' : 0 < rows := Nat.pos_of_ne_zero hrows
+  generalize hst : rowsRun (mf32Step o) (mf32Read f) rows (mf32InitLanes o f) = st at h
+  -- every lane holds a cell of its column that dominates the column
+  have hV : ∀ s, s < 32 → (∃ i, i < rows ∧ st.getD s o.zero = f i s) ∧
+      ∀ i, i < rows → o.le (f i s) (st.getD s o.zero) = true := by
+    intro s hs
+    have hinit : (mf32InitLanes o f)[s]? = some (f 0 s) := by
+      simp only [mf32InitLanes, t1, List.getElem?_map, List.getElem?_range hs, Option.map_some,
+        t3 s hs, initLane]
+      congr 2
+      omega
+    have hrd : (fun i => mf32Read f i s) = fun i => f i s := by
+      funext i; simp only [mf32Read]; rw [t2 s hs]
+    have hstep : mf32Step o = fun _ m r => maxps o m r := by
+      funext i m r; simp [mf32Step, t4]
+    have hget : st.getD s o.zero = laneFold (fun _ m r => maxps o m r) (fun i => f i s) (List.range rows) (f 0 s) := by
+      rw [List.getD_eq_getElem?_getD, ← hst, rowsRun_getElem?, hinit, hrd, hstep]; rfl
+    obtain ⟨l1, _, l3⟩ := lane_max o ht (maxps o) (maxps_maxLike o ht) (fun i => f i s) rows (f 0 s)
+    rw [hget]
+    refine ⟨?_, l3⟩
+    rcases l1 with l1 | l1
+    · exact ⟨0, hrows', l1⟩
+    · exact l1
+  simp only [t5] at h
+  obtain ⟨hmem, hdom⟩ := reduce1_maxLike o ht (fmax o) (fmax_maxLike o ht) _ v h
+  have mp := maxps_maxLike o ht
+  constructor
+  · -- attained
+    obtain ⟨l, hl, rfl⟩ := List.mem_map.1 hmem
+    have hl8 : l < 8 := List.mem_range.1 hl
+    have key : ∀ a b c d : α, maxps o (maxps o a b) (maxps o c d) = a ∨ maxps o (maxps o a b) (maxps o c d) = b ∨
+        maxps o (maxps o a b) (maxps o c d) = c ∨ maxps o (maxps o a b) (maxps o c d) = d := by
+      intro a b c d
+      rcases (mp (maxps o a b) (maxps o c d)).1 with e | e <;> rw [e]
+      · rcases (mp a b).1 with e | e <;> simp [e]
+      · rcases (mp c d).1 with e | e <;> simp [e]
+    rcases key (st.getD (8 * 0 + l) o.zero) (st.getD (8 * 1 + l) o.zero) (st.getD (8 * 2 + l) o.zero)
+      (st.getD (8 * 3 + l) o.zero) with e | e | e | e <;> rw [e]
+    · obtain ⟨i, hi, hv⟩ := (hV (8 * 0 + l) (by omega)).1; exact ⟨i, _, hi, by omega, hv.symm⟩
+    · obtain ⟨i, hi, hv⟩ := (hV (8 * 1 + l) (by omega)).1; exact ⟨i, _, hi, by omega, hv.symm⟩
+    · obtain ⟨i, hi, hv⟩ := (hV (8 * 2 + l) (by omega)).1; exact ⟨i, _, hi, by omega, hv.symm⟩
+    · obtain ⟨i, hi, hv⟩ := (hV (8 * 3 + l) (by omega)).1; exact ⟨i, _, hi, by omega, hv.symm⟩
+  · -- dominates
+    intro r c hr hc
+    have h1 := (hV c hc).2 r hr
+    have hm := hdom _ (List.mem_map.2 ⟨c % 8, List.mem_range.2 (Nat.mod_lt _ (by omega)), rfl⟩)
+    refine ht.trans _ _ _ h1 (ht.trans _ _ _ ?_ hm)
+    have dom : ∀ a b c d : α,
+        o.le a (maxps o (maxps o a b) (maxps o c d)) = true ∧
+        o.le b (maxps o (maxps o a b) (maxps o c d)) = true ∧
+        o.le c (maxps o (maxps o a b) (maxps o c d)) = true ∧
+        o.le d (maxps o (maxps o a b) (maxps o c d)) = true := by
+      intro a b c d
+      have t := mp (maxps o a b) (maxps o c d)
+      exact ⟨ht.trans _ _ _ (mp a b).2.1 t.2.1, ht.trans _ _ _ (mp a b).2.2 t.2.1,
+        ht.trans _ _ _ (mp c d).2.1 t.2.2, ht.trans _ _ _ (mp c d).2.2 t.2.2⟩
+    have hd := dom (st.getD (8 * 0 + c % 8) o.zero) (st.getD (8 * 1 + c % 8) o.zero)
+      (st.getD (8 * 2 + c % 8) o.zero) (st.getD (8 * 3 + c % 8) o.zero)
+    have hk : c / 8 = 0 ∨ c / 8 = 1 ∨ c / 8 = 2 ∨ c / 8 = 3 := by omega
+    rcases hk with e | e | e | e
+    · have hc0 : st.getD c o.zero = st.getD (8 * 0 + c % 8) o.zero := by congr 1; omega
+      rw [hc0]; exact hd.1
+    · have hc0 : st.getD c o.zero = st.getD (8 * 1 + c % 8) o.zero := by congr 1; omega
+      rw [hc0]; exact hd.2.1
+    · have hc0 : st.getD c o.zero = st.getD (8 * 2 + c % 8) o.zero := by congr 1; omega
+      rw [hc0]; exact hd.2.2.1
+    · have hc0 : st.getD c o.zero = st.getD (8 * 3 + c % 8) o.zero := by congr 1; omega
+      rw [hc0]; exact hd.2.2.2
+
 end C07
 end LMV
